@@ -287,6 +287,29 @@ CHECKS = {
              "must not be re-sent.",
         note="Retry budgets are read from the code and listed in the "
              "evidence; one burst per run; ISO-DEP WTX defects are C12's."),
+    'C07': dict(
+        category='exploration', design='2/C07',
+        technique="bounded exhaustive single-deviation input enumeration "
+                  "(one malformed input per run at every position where the "
+                  "peer speaks) on the real stack with deadlock/uncaught-"
+                  "exception detection",
+        text="air: two complete stacks over the virtual air, each radio frame "
+             "of a SNEP put conversation (ATR/PSL/DEP/RLS, general bytes, "
+             "LLCP inside DEP) replaced by byte substitutions, truncations, "
+             "extensions, consistent-length cuts and short frames; llcp: a "
+             "scripted peer injects one arbitrary PDU (7 DSAP x 3 SSAP x 16 "
+             "PTYPE x TLV-boundary tails, nested AGF to depth 541, over-size, "
+             "all strings of length 0..1) while SNEP and handover servers, an "
+             "LDL socket and a listening DLC are bound; snep: malformed "
+             "SNEP/handover fragments in correctly numbered I PDUs to servers "
+             "and malformed answers to clients; card: every command code and "
+             "truncation to the Type 3 Tag emulation directly and through "
+             "connect(card=...); decode: all strings of length 0..2 and all "
+             "PFB values through the NFC-DEP frame decoders.  connect() must "
+             "return, no thread may die with an uncaught exception or block.",
+        note="One malformed input per run (thorough: larger alphabets, both "
+             "roles); virtual threads under the default schedule; the peer "
+             "is nfcpy itself (air) or sim/peer.py."),
 }
 
 NOT_YET = "check not built yet in this round (see DESIGN.md section 2 for the planned design)"
